@@ -1,0 +1,13 @@
+//go:build verif
+
+package queue
+
+import "database/sql"
+
+// VerifCheckpoint runs the same passive WAL checkpoint the background loop
+// runs, so the simulation can schedule it as an event instead of a real timer.
+func (s *SQLiteStore) VerifCheckpoint() error { return s.checkpointPassive() }
+
+// VerifDB exposes the connection pool for read-only integrity checks
+// (PRAGMA integrity_check, counter/row comparisons) made by the harness.
+func (s *SQLiteStore) VerifDB() *sql.DB { return s.db }
